@@ -984,8 +984,10 @@ class quantized_linear(base_quantizer.BaseQuantizer):
       quantization_scale = self._get_auto_quantization_scale(x)
     else:
       # quantization scale determined by quantizer params, not data
-      # see default_quantization_scale property for more info
-      quantization_scale = self.quantization_scale
+      # see default_quantization_scale property for more info; recomputed
+      # here because alpha is a modifiable attribute
+      quantization_scale = self.default_quantization_scale
+      self.quantization_scale = quantization_scale
 
     scaled_xq = self._scale_clip_and_round(x, quantization_scale)
     xq = scaled_xq * quantization_scale
